@@ -178,12 +178,20 @@ func c07PanicSig(msg string) string {
 	return "Decode:panic@" + verifmc.PanicSite(msg) + ":" + c07Norm(msg)
 }
 
+// c07ErrClass maps an error to the stage of decoding that rejected the input.
 func c07ErrClass(err error) string {
-	s := c07Norm(err.Error())
-	if len(s) > 48 {
-		s = s[:48]
+	s := err.Error()
+	for _, c := range [][2]string{
+		{"inlined child", "inlined-child"}, {"reading header byte", "header-eof"}, {"reading key length", "key-length-eof"},
+		{"variant is unknown", "variant-unknown"}, {"cannot be larger", "key-too-long"}, {"cannot decode key", "key-short"},
+		{"children bitmap", "bitmap"}, {"hashed storage value too short", "hashed-value-short"}, {"cannot decode hashed", "hashed-value"},
+		{"cannot decode storage value", "storage-value"}, {"cannot decode child hash", "child-reference"},
+	} {
+		if strings.Contains(s, c[0]) {
+			return "error:" + c[1]
+		}
 	}
-	return "error:" + s
+	return "error:other:" + c07Norm(s)
 }
 
 // splitReader returns the bytes of data but ends one Read call at offset split (a short read
@@ -483,7 +491,7 @@ func TestVerif_C07_node(t *testing.T) {
 				classes.add("deviation:panic")
 			case res.err != nil:
 				rejected++
-				classes.add("deviation:" + kind + ":" + c07ErrClass(res.err))
+				classes.add("deviation:" + c07ErrClass(res.err))
 			default:
 				if res.node != nil && c07Equiv(sh.D, res.node, "") == "" {
 					okSame++
@@ -548,7 +556,7 @@ func TestVerif_C07_node(t *testing.T) {
 					map[string]any{"shape": sh.Name, "reader": name, "pos": pos})
 				classes.add("reader:panic")
 			case res.err != nil:
-				classes.add("reader:" + name + ":valid-encoding-rejected(counted):" + c07ErrClass(res.err))
+				classes.add("reader:" + name + ":valid-encoding-rejected(counted)")
 			case res.node != nil && c07Equiv(sh.D, res.node, "") == "":
 				classes.add("reader:" + name + ":equivalent")
 			default:
